@@ -668,11 +668,11 @@ Definition valid_op (s : mesh) (o : op) : bool :=
   match o with
   | AddVertex | AddVertices _ => true
   | AddEdge a b _ => live_v s a && live_v s b
-  | AddFace hes _ => all_b (live_he s) hes
+  | AddFace hes check => (check || negb (match hes with [] => true | _ => false end)) && all_b (live_he s) hes
   | AddFaceV vs => negb (match vs with [] => true | _ => false end) && all_b (live_v s) vs
   | AddCell hfs _ => all_b (live_hf s) hfs
   | SetEdge e a b => live_e s e && live_v s a && live_v s b
-  | SetFace f hes => live_f s f && all_b (live_he s) hes
+  | SetFace f hes => live_f s f && negb (match hes with [] => true | _ => false end) && all_b (live_he s) hes
   | SetCell c hfs => live_c s c && all_b (live_hf s) hfs
   | DelVertex v => live_v s v
   | DelEdge e => live_e s e
